@@ -61,6 +61,26 @@ def run(chk, mode="three"):
                                 "x": mc.last_state(res.trace, "x"), "oracle": mc.last_state(res.trace, "orc"),
                                 "tlc": res.trace[-6000:], "mode": mode, "ring": ring})
             rs = [r for r in rs if r is not bad]
+    # --- real widths, real evaluator: the compiled graph executed by the harness as three separate parties (C02) and on
+    # one store (C01); TLC (spec/Run3Trace.tla) judges the final condition of every run. Covers the protocols the TLA+
+    # interpreter cannot run: conversions at 32-128 bits, comparisons / min / max, sort, permutations, joins.
+    from . import wide3
+    js, wrecs, bad3, bad1, wfailed, byid = wide3.run(chk)
+    chk.traces += len(wrecs)
+    chk.note("wide_runs", len(wrecs))
+    chk.note("wide_programs", sorted({j["name"] for j in js}))
+    chk.note("wide_rejected_by_compiler", wfailed[:10])
+    for r in (bad3 if mode == "three" else bad1):
+        job = byid[r["id"]]
+        sig = {"phase": "wide", "family": job["family"], "program": r["name"], "owners": r["owners"]}
+        if job["family"] == "join":
+            sig["join"] = r["name"].split("_")[1]
+            sig["first_table"] = "pub" if r["owners"][0] == "pub" else "private"
+        if job["family"] == "perm":
+            sig["permutation_owner"] = "party" if r["owners"][1] in ("0", "1", "2") else r["owners"][1]
+        chk.violation(sig, {"job": {k: job[k] for k in ("id", "name", "owners", "outs", "mode", "inputs")}, "seed": r["seed"], "junk": r["junk"],
+                            "expected": r["expected"], "out": r["out"] if mode == "three" else r["single"], "ok": r["ok"],
+                            "how": "cc-conform run3 <job> <out>; spec/Run3Trace.tla"})
     for r in recs[:4]:
         chk.sample(dict(mc.describe(r), mpc_nodes=len(r["mpc"]), prf_nodes=sum(1 for n in r["mpc"] if n["op"] == "PRF"),
                         sends=sum(len(n["sends"]) for n in r["mpc"])))
